@@ -127,6 +127,13 @@ func c09overrides() []c09override {
 		{"scope", sv(func(s *Service) { s.Scope = P("contextual") }), sv(func(s *Service) { s.Scope = P("shared") })},
 		{"todo", func(c *Cfg) { svcIn(c, "s4").Todo = P(true) }, func(c *Cfg) { s := svcIn(c, "s4"); s.Todo = P(false); s.Value = P("pk.Var") }},
 		{"parameter", func(c *Cfg) { c.Params = append(c.Params, Param{"p9", "decoy"}) }, func(c *Cfg) { c.Params = append(c.Params, Param{"p9", 99}) }},
+		// a later null is a value like any other for the entries of a mapping (parameters, fields): it wins over an earlier
+		// non-null one; and a later non-null wins over an earlier null
+		{"parameter-null-over-value", func(c *Cfg) { c.Params = append(c.Params, Param{"p9", 30}) }, func(c *Cfg) { c.Params = append(c.Params, Param{"p9", nil}) }},
+		{"parameter-value-over-null", func(c *Cfg) { c.Params = append(c.Params, Param{"p9", nil}) }, func(c *Cfg) { c.Params = append(c.Params, Param{"p9", "set"}) }},
+		{"field-null-over-value", sv(func(s *Service) { s.Fields = append(s.Fields, KV{"F1", "@s2"}) }), sv(func(s *Service) { s.Fields = append(s.Fields, KV{"F1", nil}) })},
+		{"field-value-over-null", sv(func(s *Service) { s.Fields = append(s.Fields, KV{"F1", nil}) }), sv(func(s *Service) { s.Fields = append(s.Fields, KV{"F1", 15}) })},
+		{"parameter-false-and-zero-over-value", func(c *Cfg) { c.Params = append(c.Params, Param{"p9", "decoy"}, Param{"p8", 7}, Param{"p7", "x"}) }, func(c *Cfg) { c.Params = append(c.Params, Param{"p9", false}, Param{"p8", 0}, Param{"p7", ""}) }},
 		{"parameter-decoy-of-unsupported-kind", func(c *Cfg) { c.Params = append(c.Params, Param{"p9", Raw("[a, {b: c}]")}) }, func(c *Cfg) { c.Params = append(c.Params, Param{"p9", "scalar"}) }},
 		{"todo-then-defined", func(c *Cfg) {
 			s := svcIn(c, "s5")
@@ -298,7 +305,7 @@ func init() {
 	Register(&Check{
 		ID:    "C09",
 		Level: "exploration",
-		Rule: "(1) four base configurations of 7-10 atoms (service attributes incl. ordered calls/tags; meta + parameters; services + fields + decorators + version; null-valued parameters, arguments and fields + a todo service carrying left-over arguments and calls) x every assignment of the atoms to 3 files that respects the order of appended atoms: -o bytes equal the single-file form; (2) 23 overriding pairs (incl. later mappings that are larger than everything merged before, and a user function named like a built-in) (decoy in an earlier file, real value later; empty arguments do not replace) x 5 file placements (incl. an unrelated or an empty file after the overriding one); (3) file naming / pattern assignment: explicit paths in both orders, one glob, two globs, a directory glob whose lexical path order differs from directory order, uncleaned patterns; " +
+		Rule: "(1) four base configurations of 7-10 atoms (service attributes incl. ordered calls/tags; meta + parameters; services + fields + decorators + version; null-valued parameters, arguments and fields + a todo service carrying left-over arguments and calls) x every assignment of the atoms to 3 files that respects the order of appended atoms: -o bytes equal the single-file form; (2) 28 overriding pairs (incl. a later null / false / zero / empty string over an earlier value in parameters and fields) (incl. later mappings that are larger than everything merged before, and a user function named like a built-in) (decoy in an earlier file, real value later; empty arguments do not replace) x 5 file placements (incl. an unrelated or an empty file after the overriding one); (3) file naming / pattern assignment: explicit paths in both orders, one glob, two globs, a directory glob whose lexical path order differs from directory order, uncleaned patterns; " +
 			"(5) nine spellings of an empty file (zero bytes, blank lines, comment only, bare document markers, {}, ~) at every position of a three-file configuration; (4) algebra on the real input.Merge: associativity for all triples and identity for all elements of a universe of 497 inputs (each attribute absent / v1 / v2, two attributes at a time; thorough: all triples, quick: all triples over the single-attribute elements). non-trivial = more than one file involved; distinct = distinct split / pair / triple",
 		Assumptions: []string{"the single-file equivalent is built from the abstract atoms (never by merging YAML); merged Input values are compared structurally, not distinguishing nil from empty collections"},
 		BudgetQuick: 280 * time.Second, BudgetThorough: 1500 * time.Second,
@@ -611,7 +618,36 @@ func init() {
 				})
 			}
 			// the empty file is the identity at file level too: every spelling of "no content" at every position
-			for ei, empty := range []string{"", "\n", "  \n\n", "# only a comment\n", "---\n", "{}\n", "~\n", "--- # nothing\n...\n", "\n# comment\n\n"} {
+			// ... and so is a file that names sections, services or attributes and gives them nothing (null, an empty list, an
+			// empty mapping): scalars keep their earlier value, lists and mappings have nothing appended or united
+			neutral := []string{"", "\n", "  \n\n", "# only a comment\n", "---\n", "{}\n", "~\n", "--- # nothing\n...\n", "\n# comment\n\n"}
+			for _, sec := range []string{"version", "meta", "parameters", "services", "decorators"} {
+				neutral = append(neutral, sec+":\n", sec+": ~\n")
+				switch sec {
+				case "decorators":
+					neutral = append(neutral, sec+": []\n")
+				case "version":
+				default:
+					neutral = append(neutral, sec+": {}\n")
+				}
+			}
+			for _, k := range []string{"pkg", "container_type", "container_constructor", "default_must_getter", "imports", "functions"} {
+				neutral = append(neutral, "meta: {"+k+": ~}\n")
+				if k == "imports" || k == "functions" {
+					neutral = append(neutral, "meta: {"+k+": {}}\n")
+				}
+			}
+			neutral = append(neutral, "services: {s1: ~}\n", "services: {s1: {}}\n", "services:\n  s1:\n", "parameters: {}\nservices: {}\ndecorators: []\nmeta: {imports: {}, functions: {}}\n")
+			for _, k := range []string{"getter", "must_getter", "type", "value", "constructor", "arguments", "calls", "fields", "tags", "scope", "todo"} {
+				neutral = append(neutral, "services: {s1: {"+k+": ~}}\n")
+				switch k {
+				case "arguments", "calls", "tags":
+					neutral = append(neutral, "services: {s1: {"+k+": []}}\n")
+				case "fields":
+					neutral = append(neutral, "services: {s1: {"+k+": {}}}\n")
+				}
+			}
+			for ei, empty := range neutral {
 				for pos := 0; pos < 4; pos++ {
 					ei, empty, pos := ei, empty, pos
 					id := fmt.Sprintf("identity-file/%d/position%d", ei, pos)
@@ -680,6 +716,30 @@ func init() {
 							c.Violation("many-files-differ", fmt.Sprintf("%d files (named %s): accepted %v / %v; %s\n%s", n, []string{"one by one", "by one pattern"}[gi], want.OK(), got.OK(), FirstDiff(want.Output, got.Output), strings.Join(ErrorLines(got.Out), "\n")), FilesMap(files), nil)
 							return
 						}
+					}
+				})
+			}
+			// ... nor is the spelling of a file's name: commas, quotes, blanks, equals signs and the like in file and directory
+			// names (each -i value is one pattern, whatever it contains), the same three parts under each naming
+			for ni, names := range [][]string{{"a,b.yaml", "c,d.yaml", "e.yaml"}, {"cfg,v2/a.yaml", "cfg,v2/b.yaml", "cfg,v2/c,d.yaml"}, {`q"uote.yaml`, `r"s"t.yaml`, `u'v.yaml`}, {"with blank.yaml", " leading.yaml", "trailing .yaml"},
+				{"k=v.yaml", "x;y.yaml", "p#q.yaml"}, {"ü.yaml", "日本.yaml", "z\u0301.yaml"}, {"a,\"b\", c.yaml", "d,,e.yaml", ",.yaml"}, {"1,2/3,4/a.yaml", "1,2/b.yaml", "c.yaml"}} {
+				ni, names := ni, names
+				w.Case(fmt.Sprintf("file-name-spellings/%d", ni), func(c *C) {
+					parts := []*Cfg{
+						{Meta: &Meta{Pkg: P("gen"), Imports: []KV{{"pk", "fx/pk"}}}, Params: []Param{{"p", 1}}, Services: []Service{{Name: "s", Constructor: P("pk.New"), Args: []any{"first"}, Tags: []Tag{{Name: "t0"}}}}},
+						{Params: []Param{{"p", 2}, {"q", "%p%"}}, Services: []Service{{Name: "s", Calls: []Call{{Method: "Set1", Args: []any{"%q%"}}}, Tags: []Tag{{Name: "t1"}}}}},
+						{Params: []Param{{"p", 3}}, Services: []Service{{Name: "s", Args: []any{"third"}, Fields: []KV{{"F1", "%p%"}}}}, Decorators: []Decorator{{Tag: "t1", Decorator: "pk.Dec1"}}},
+					}
+					var plain, odd []File
+					for i, pc := range parts {
+						plain = append(plain, File{fmt.Sprintf("%d.yaml", i), pc.YAML()})
+						odd = append(odd, File{names[i], pc.YAML()})
+					}
+					want, got := w.Build(plain), w.Build(odd)
+					c.Distinct("all", c.ID)
+					c.Distinct("nontrivial", c.ID)
+					if !want.OK() || !got.OK() || want.Output != got.Output {
+						c.Violation("file-name-spelling-changes-the-result", fmt.Sprintf("files named %q: accepted %v / %v; %s\n%s", names, want.OK(), got.OK(), FirstDiff(want.Output, got.Output), strings.Join(ErrorLines(got.Out), "\n")), FilesMap(odd), nil)
 					}
 				})
 			}
